@@ -3,7 +3,7 @@
    Model: Alg/RQ.v. g : Z -> Q is the newsvendor cost (newsvendor_poisson_cost as a function of the base-stock
    level), F the Poisson cdf, both inputs; K lam = fixed_cost * demand_mean.
    rq_cost_def g K lam r n = (K lam + sum_{y=r+1}^{r+n} g y) / n  is the documented cost (5.48). *)
-From SV Require Import Base.Qx Alg.RQ Alg.RQ_proofs Alg.RQTol_proofs.
+From SV Require Import Base.Qx Alg.RQ Alg.RQ_proofs Alg.RQTol_proofs Alg.RQTerm_proofs.
 
 (* (1) r_q_cost_poisson (accumulation loop as written) equals the documented sum, also through the guards *)
 Theorem C14_poisson_cost_def g K lam r n : rq_cost_poisson g K lam r n == rq_cost_def g K lam r n.
@@ -97,6 +97,41 @@ Theorem C14_r_for_q_minimises_partial (g G : Q -> Q) (s : Q) :
   forall r', G (r + Qn) - G r <= G (r' + Qn) - G r'.
 Proof. exact (r_for_q_minimises_exact g G s). Qed.
 
+(* (5c) TERMINATION of the bisection (no fuel hypothesis left): for a one-period cost that is Lipschitz with constant Lc
+   (the newsvendor cost is, with Lc = max(h,p)) and an initial bracket with the signs the code relies on, every fuel with
+   Lc * 5Q <= 2^fuel * tol suffices: the while-loop exits after at most ceil(log2(5 Q Lc / tol)) halvings, at a point of
+   [S - 5Q, S] whose gap is within the tolerance. A convex cost minimised at S has those signs. *)
+Theorem C14_r_for_q_terminates : forall (g : Q -> Q) (Qn tol Lc : Q),
+  (forall x y, qabs (g x - g y) <= Lc * qabs (x - y)) ->
+  forall fuel s, 0 <= Qn -> g (s - 4 * Qn) <= g (s - 5 * Qn) -> g s <= g (s + Qn) ->
+  Lc * (5 * Qn) <= inject_Z (2 ^ Z.of_nat fuel) * tol ->
+  exists r, r_for_q g Qn tol fuel s = Some r.
+Proof. exact r_for_q_terminates. Qed.
+Theorem C14_r_for_q_total : forall (g : Q -> Q) (Qn tol Lc : Q),
+  (forall x y, qabs (g x - g y) <= Lc * qabs (x - y)) ->
+  forall fuel s, 0 <= Qn -> g (s - 4 * Qn) <= g (s - 5 * Qn) -> g s <= g (s + Qn) ->
+  Lc * (5 * Qn) <= inject_Z (2 ^ Z.of_nat fuel) * tol ->
+  exists r, r_for_q g Qn tol fuel s = Some r /\ - tol <= g r - g (r + Qn) <= tol /\ s - 5 * Qn <= r <= s.
+Proof. exact r_for_q_total. Qed.
+Theorem C14_r_for_q_terminates_any_larger_fuel : forall (g : Q -> Q) (Qn tol Lc : Q),
+  (forall x y, qabs (g x - g y) <= Lc * qabs (x - y)) ->
+  forall fuel0 fuel s, 0 <= Qn -> 0 <= tol -> (fuel0 <= fuel)%nat ->
+  g (s - 4 * Qn) <= g (s - 5 * Qn) -> g s <= g (s + Qn) ->
+  Lc * (5 * Qn) <= inject_Z (2 ^ Z.of_nat fuel0) * tol ->
+  exists r, r_for_q g Qn tol fuel s = Some r.
+Proof. exact r_for_q_terminates_any. Qed.
+Theorem C14_convex_cost_has_bracket_signs : forall (g : Q -> Q) (s Qn : Q), 0 <= Qn ->
+  (forall x, g s <= g x) ->
+  (forall a b c, a <= b -> b <= c -> a < c -> (c - a) * g b <= (c - b) * g a + (b - a) * g c) ->
+  g (s - 4 * Qn) <= g (s - 5 * Qn) /\ g s <= g (s + Qn).
+Proof. exact convex_min_signs. Qed.
+(* non-vacuity: g = |x| (1-Lipschitz, convex, minimised at 0), Q = 1, tol = 1/1000: the bound asks for 13 halvings and the run
+   with fuel 13 returns; with tol = 0 the loop of the model runs out of every fuel tried (so a positive tolerance is needed) *)
+Example C14_termination_example :
+  1 * (5 * 1) <= inject_Z (2 ^ Z.of_nat 13) * (1 # 1000) /\ (exists r, r_for_q gabs 1 (1 # 1000) 13 0 = Some r) /\
+  forallb (fun f => match r_for_q gthird 1 0 f (1 # 3) with None => true | Some _ => false end) (seq 0 10) = true.
+Proof. split; [exact term_bound_example|split; [exact term_example|exact tol_zero_runs_out]]. Qed.
+
 (* (6) approximations: each returned pair solves its defining equations (Q-equation exactly in squared form, r-equation
    for a Q' within tol of the returned Q); sqrtf, ppf, n1, n2, solve are the library functions as inputs *)
 Section Approx.
@@ -178,6 +213,10 @@ Print Assumptions C14_r_for_q_minimises_convex.
 Print Assumptions C14_r_for_q_bracket.
 Print Assumptions C14_r_for_q_minimises_as_first_stated_is_false.
 Print Assumptions C14_r_for_q_minimises_partial.
+Print Assumptions C14_r_for_q_terminates.
+Print Assumptions C14_r_for_q_total.
+Print Assumptions C14_r_for_q_terminates_any_larger_fuel.
+Print Assumptions C14_convex_cost_has_bracket_signs.
 Print Assumptions C14_eil_fixed_point.
 Print Assumptions C14_lossfn_fixed_point.
 Print Assumptions C14_eoqb.
